@@ -506,6 +506,62 @@ func checkC14(c *Ctx, r *Report) {
 		}
 	}
 	r.Check(seen["LastAddition"] && seen["LastErase"], oname+"|timestamp comparisons", op.Pos(), "initial.LastAddition < final.LastAddition and initial.LastErase < final.LastErase are both tested", fmt.Sprintf("the before/after comparison of both LastAddition and LastErase is missing or compares the wrong values (found %v)", seen))
+	// the two snapshots are two objects: every implementation of the method that fetches the
+	// repository info hands back a response that belongs to that call alone (a pointer into an
+	// object it allocated), never storage shared between calls — or "before" and "after" would
+	// be one struct and always compare equal
+	if before.Call.IsInvoke() {
+		mname := before.Call.Method.Name()
+		r.Rule("snapshots-distinct", "every implementation of the repository-info method returns a response object allocated by that call (the before and after snapshots cannot alias)", 1)
+		nImpl := 0
+		for _, fn := range c.ModFn {
+			if fn.Signature.Recv() == nil || fn.Name() != mname || fn.Blocks == nil || fn.Synthetic != "" {
+				continue
+			}
+			if !types.Identical(stripRecv(fn.Signature), before.Call.Method.Type().(*types.Signature)) {
+				continue
+			}
+			nImpl++
+			fname := c.FnName(fn)
+			r.Fn(fname)
+			okFresh, why := true, ""
+			complete := enumPaths(fn, 1, 4096, func(p CPath) {
+				ret, isRet := p.Last().(*ssa.Return)
+				if !isRet || ret.Parent() != fn || len(ret.Results) == 0 {
+					return
+				}
+				v := p.Resolve(ret.Results[0])
+				if isNilConst(v) {
+					return
+				}
+				root := p.AP(v).Root
+				al, isAl := root.(*ssa.Alloc)
+				if !isAl {
+					okFresh, why = false, "the response returned is reached from "+rootName(root)+", which outlives the call"
+					return
+				}
+				inView := false
+				for _, f := range flatOf(fn).Funcs() {
+					if al.Parent() == f {
+						inView = true
+					}
+				}
+				if !inView {
+					okFresh, why = false, "the response returned is not allocated by the call"
+				}
+			})
+			if !complete {
+				r.Unk(fname+"|fresh response", fn.Pos(), "too many paths")
+				continue
+			}
+			r.Check(okFresh, fname+"|fresh response", fn.Pos(), "the response is part of an object this call allocated", why)
+		}
+		if nImpl == 0 {
+			r.Lost("implementations of " + mname)
+		}
+		r.Rule("consistent-snapshot", "", 4)
+	}
+
 	// the result cell is stored only on feasible paths where every comparison was false
 	var cell *ssa.FreeVar
 	nStores := map[ssa.Instruction]bool{}
@@ -613,4 +669,10 @@ func lastCallBefore(ret *ssa.Return) string {
 		}
 	}
 	return "?"
+}
+
+
+// stripRecv: the signature of a method without its receiver (as an interface declares it).
+func stripRecv(sig *types.Signature) *types.Signature {
+	return types.NewSignatureType(nil, nil, nil, sig.Params(), sig.Results(), sig.Variadic())
 }
